@@ -67,5 +67,48 @@ session is ever in state Closed, and the agent's own demonstration passes with t
 |---|---|---|---|
 ''' + '\n'.join(rows) + '\n\n'
 s = s[:i] + sec + s[j:]
+# ---- §0.7 per-property table
+import importlib.util, sys, os
+sys.path.insert(0, '/verif/lib')
+REFINE = {
+ 'C01': 'bitmap: `bitmap_refines_poolspec`; pppoesrv: `monitor_silent_on_model` (all clauses)',
+ 'C04': 'pppoesrv: `monitor_silent_on_model`; pppauth: monitor silent on every model history (Spec.C04Auth)',
+ 'C05': 'bitmap: `bitmap_refines_poolspec`; pppoesrv: `monitor_silent_on_model`',
+ 'C10': '`monitor_silent_on_model`',
+ 'C16': 'pppoesrv: `monitor_silent_on_model` (+ timed layer `timed_projects`); others: runs only',
+ 'C19': 'over-admit monitor proved sound (`over_admit_monitor_sound`)',
+}
+TRANSL = {'C06': 'extractlayout', 'C11': 'extractfsm (+ reference tables for the search)', 'C16': 'extractpaths'}
+rows = []
+for i in range(1, 21):
+    pid = 'C%02d' % i
+    sp = importlib.util.spec_from_file_location('chk_' + pid, '/verif/checks/%s.py' % pid.lower())
+    m = importlib.util.module_from_spec(sp)
+    try:
+        sp.loader.exec_module(m)
+    except Exception as e:
+        rows.append('| %s | (could not load: %s) | | | | |' % (pid, e)); continue
+    comps = ', '.join(sorted({c.name for c in m.COMPS}))
+    specs = m.SPEC if isinstance(m.SPEC, list) else [m.SPEC]
+    specs = ', '.join(x.replace('Bng.Spec.', '') for x in specs)
+    exp = '/verif/checks/expect/%s.txt' % pid
+    nth = len(open(exp).read().split()) if os.path.exists(exp) else 0
+    nk = len([x for x in d if x['status'] == 'known' and pid in x.get('properties', [x.get('property')])])
+    rows.append('| %s | %s | %s | %d | %s | %s | %d |' % (pid, comps, specs, nth, TRANSL.get(pid, '—'), REFINE.get(pid, 'runs only'), nk))
+sec7 = '''### 0.7 Per property: components, theorems, ties (generated by `tools/mkdesign.py`)
+
+"Theorems" = pinned obligation set of the property's Spec modules (every one audited for axioms on every run). "Monitor" = what is
+proved about the monitor that judges the implementation's observations ("runs only" = validated by the unchanged tree, the pre-fix
+trees and the seeded changes, not by a theorem). Every component is tied to the code by the differential correspondence run.
+
+| Property | Components (harness ↔ driver) | Spec modules | Theorems | Translator | Monitor | Known findings |
+|---|---|---|---|---|---|---|
+''' + '\n'.join(rows) + '\n\n'
+if '### 0.7 Per property' in s:
+    i = s.index('### 0.7 Per property'); j = s.index('---------------------------------------------------------------------------------------', i)
+    s = s[:i] + sec7 + s[j:]
+else:
+    j = s.index('---------------------------------------------------------------------------------------\n\nContents')
+    s = s[:j] + sec7 + s[j:]
 open(p, 'w').write(s)
-print("DESIGN.md §0.3/§0.4 regenerated:", len(fx), "fixed,", len(kn), "known,", n, "seeded")
+print("DESIGN.md §0.3/§0.4/§0.7 regenerated:", len(fx), "fixed,", len(kn), "known,", n, "seeded")
